@@ -513,4 +513,52 @@ theorem c02_supply_unchanged_without_cctp (cfg : Cfg) (π : OneofOrder) (φ : Fa
       rcases hm with hm | hm <;> exact ⟨_, _, _, _, hm⟩
     | internal dst hne' => simp only [List.mem_singleton] at hm; exact ⟨_, _, _, _, hm⟩
 
+
+/-- A replay without mints lets no supply grow. -/
+theorem replay_supply_le (ms : List Move) (l l' : Ledger) (h : l.replay ms = some l')
+    (hx : ∀ m ∈ ms, ∀ a d n, m ≠ .mint a d n) (dn : String) : l'.supply dn ≤ l.supply dn := by
+  induction ms generalizing l with
+  | nil => simp only [Ledger.replay, List.foldlM_nil, Option.pure_def, Option.some.injEq] at h; subst h; exact Nat.le_refl _
+  | cons m rest ih =>
+    simp only [Ledger.replay, List.foldlM_cons] at h
+    cases hm : l.apply m with
+    | none => simp [hm] at h
+    | some l1 =>
+      simp only [hm, Option.bind_eq_bind, Option.bind_some] at h
+      have h1 := ih l1 h (fun x hx' => hx x (List.mem_cons_of_mem _ hx'))
+      have h2 : l1.supply dn ≤ l.supply dn := by
+        cases m with
+        | xfer s d dd n =>
+          simp only [Ledger.apply] at hm
+          rw [Ledger.send_supply hm]; exact Nat.le_refl _
+        | burn s dd n =>
+          simp only [Ledger.apply] at hm
+          rw [burn_supply hm dn]
+          split
+          · rename_i e; subst e; exact Nat.sub_le _ _
+          · exact Nat.le_refl _
+        | mint dd d n => exact absurd rfl (hx _ List.mem_cons_self dd d n)
+      exact Nat.le_trans h1 h2
+
+/-- **Supply never grows.** Whatever the route, a successfully acknowledged orbiter transfer mints nothing: the total supply
+of every denomination afterwards is at most what it was before (it is smaller exactly by what CCTP burnt). -/
+theorem c02_supply_never_grows (cfg : Cfg) (π : OneofOrder) (φ : Faults) (w : World) (pkt : Packet) (t : TransferAttrs) (p : Payload)
+    (hs : (ibcRecv (appWiring cfg π) φ w pkt).ack.isSuccess = true) (ha : adaptPacket (appWiring cfg π) pkt = .ok (.orbiter t p))
+    (dn : String) : (ibcRecv (appWiring cfg π) φ w pkt).ctx.bank.supply dn ≤ w.bank.supply dn := by
+  obtain ⟨credits, F, f, route, _, hroute, hmoves, hrep, _⟩ := c02_conservation cfg π φ w pkt t p hs ha
+  apply replay_supply_le _ _ _ hrep
+  intro m hm a d n e
+  rw [hmoves] at hm
+  simp only [List.mem_append, List.mem_singleton] at hm
+  rcases hm with ((hm | hm) | hm) | hm
+  · unfold sweepMoves at hm
+    split at hm
+    · cases hm
+    · simp only [List.mem_singleton] at hm; rw [hm] at e; cases e
+  · rw [hm] at e; cases e
+  · simp only [feeMoves, List.mem_map] at hm
+    obtain ⟨v, _, rfl⟩ := hm
+    cases e
+  · exact (c02_supply cfg _ _ _ route hroute).1 m hm a d n e
+
 end Orbiter.C02
